@@ -38,6 +38,9 @@ func (s *c06State) leave() {
 func (s *c06State) closeReturned(err error) {
 	s.mu.Lock()
 	if err == nil {
+		// is some other goroutine still inside Router.Close at this moment? (engine-level observation: it
+		// tells "a later Close after one that gave up" apart from "a Close overtaking one that still waits")
+		vrt.Tag("another.close.still.inside", vrt.Inside("Router).Close") > 0)
 		vrt.Assert(s.inProgress == 0, "Close returns nil only when no handler invocation is in progress")
 		s.closedOK = true
 	}
@@ -135,6 +138,44 @@ func HarnessC06OneMsgTwoClosers() { c06Scenario(1, 2, false) }
 func HarnessC06TwoMsgs()          { c06Scenario(2, 1, false) }
 func HarnessC06Panicking()        { c06Scenario(1, 1, true) }
 func HarnessC06CloseTwice()       { c06ScenarioN(1, 1, false, 2) }
+
+// HarnessC06TwoClosersRunning: two goroutines call Close concurrently while a handler invocation is known to be
+// in progress (it entered the handler function before either Close started and is released at an arbitrary
+// moment): neither Close may return nil while the invocation is still running.
+func HarnessC06TwoClosersRunning() {
+	r, err := NewRouter(RouterConfig{CloseTimeout: 0}, watermill.NopLogger{})
+	vrt.Assert(err == nil, "router")
+	st := &c06State{}
+	sub := &directSubscriber{}
+	entered, release := make(chan struct{}), make(chan struct{})
+	r.AddNoPublisherHandler("h", "in", sub, func(m *Message) error {
+		st.enter()
+		close(entered)
+		<-release
+		st.leave()
+		return nil
+	})
+	r.isRunning = true
+	ctx, cancel := context.WithCancel(context.Background())
+	defer cancel()
+	vrt.Assert(r.RunHandlers(ctx) == nil, "handlers started")
+	sub.chans[0] <- NewMessage("m", nil)
+	<-entered
+	done := make(chan struct{}, 2)
+	for i := 0; i < 2; i++ {
+		go func() {
+			vrt.MustFinish()
+			st.closeReturned(r.Close())
+			done <- struct{}{}
+		}()
+	}
+	go func() { close(release) }()
+	<-done
+	<-done
+	vrt.AtQuiescence(func() {
+		vrt.Assert(st.started == st.finished, "every started invocation ran to completion")
+	})
+}
 
 // HarnessC06Run: Run returns only after the close has completed (never while Close is still waiting).
 func HarnessC06Run() {
